@@ -32,7 +32,7 @@ RULE = ('cases are histories of 4-12 steps over 1-2 private keys with subkeys (P
 TIERS = {"quick": {"runs": 5000, "budget_s": 100}, "thorough": {"runs": 150000, "budget_s": 1500}}
 PROBES = ('x1_fired', 'x1_fired_in_unlock_entry', 'x1_not_reached', 'exit_by_body_exception', 'wrong_passphrase', 'at_rest_flip',
           'at_rest_flip_subkey', 'reprotect_inside_scope', 'add_subkey_inside_scope', 'nested_unlock', 'nested_wrong_passphrase', 'foreign_usage255',
-          'foreign_s2k_simple', 'foreign_s2k_salted', 'foreign_gnu_dummy', 'foreign_mixed', 'export_import_protected', 'copy_key',
+          'foreign_s2k_simple', 'foreign_s2k_salted', 'foreign_gnu_dummy', 'foreign_mixed', 'export_import_protected', 'copy_key', 'ghost_of_copied_key_checked',
           'second_unlock_ok', 'graph_objects_walked', 'different_subkey_passphrase', 'passphrase_bytes', 'rsa', 'dsa', 'ecdsa', 'eddsa')
 
 PASSES = ['hunter2', 'pässwörd ☃', 'x' * 120, 'p w', 'QwertyUiop', 'cafe\u0301 \u1112\u1161\u11ab', ' padded with blanks ', 'tab\tinside\n']
@@ -307,6 +307,19 @@ def execute(case, ctx):
                 _do_subkey_other_pass(pgpy, ks, step, ctx)
         finally:
             inj.disarm()
+        for gobj, gpw, gbytes in getattr(ks, 'ghosts', []):
+            ctx.checked()
+            ctx.probe('ghost_of_copied_key_checked')
+            if bytes(gobj) != gbytes:
+                ctx.viol('C06:original-changed-through-copy:export', 'the protected key %s was copied from exports other octets after %s on the copy' % (ks.name, op))
+                break
+            try:
+                with gobj.unlock(gpw):
+                    pass
+            except Exception as e:
+                ctx.viol('C06:original-changed-through-copy:unlock', 'the protected key %s was copied from no longer unlocks with its own passphrase after %s on '
+                         'the copy: %s' % (ks.name, op, type(e).__name__))
+                break
         ctx.event(step['id'], op, ks.name, 'protected' if ks.passphrase is not None else 'clear', ks.broken)
     if nontrivial:
         ctx.mark_nontrivial(';'.join(shapes) + '|' + ','.join(sorted(cfg['keys'][k]['alg'] for k in cfg['keys'])))
@@ -733,6 +746,9 @@ def _do_copy(pgpy, ks, step, ctx):
     if ks.broken:
         return
     ctx.probe('copy_key')
+    if ks.passphrase is not None and not ks.sub_pass and not ks.gnu_dummy and not getattr(ks, 'mixed', False) and len(getattr(ks, 'ghosts', [])) < 2:
+        # the original stays around: nothing done to the copy later may change what it exports or which passphrase opens it
+        ks.ghosts = getattr(ks, 'ghosts', []) + [(ks.obj, ks.passphrase, bytes(ks.obj))]
     ks.obj = copy.copy(ks.obj)
     if ks.passphrase is not None:
         _locked_checks(pgpy, ks, ctx, 'copy of a locked key')
